@@ -4,10 +4,12 @@ slice garbage collection (histories of the real DeploymentReconciler.Reconcile v
 ObjectSet (real (Cluster)ObjectSet controller on twin worlds, inline vs sliced, vs Slices.sliced_pass[_fixed])."""
 import copy
 import json
+import os
 import vlib
 import phaselib as pl
 import setlib as sl
 import setgen
+import dlglib as dl
 from vlib import cN, cB, cL, cP, cO
 
 IMPORTS = "From PKOCorr Require Import C14Corr."
@@ -18,6 +20,8 @@ F_C14 = ("C14 sliced ObjectSet is torn down/archived before its slices are loade
          "in order (deletion) or not at all (archival)")
 ID_ACTIVE = "C14 sliced ObjectSet rolls out or reports status differently from the same ObjectSet with the objects inline"
 ID_NAMES = "C14 slice name reused for different content or a foreign controller, or an existing slice modified"
+ID_LOSSLESS = ("C14 the slices named by the stored deployment template do not decode to the phase's objects "
+               "(a slice name was reused for different content)")
 ID_GC = "C14 slice garbage collection deleted a slice that the template or an ObjectSet of the deployment references"
 
 
@@ -83,15 +87,45 @@ def chunk_stage(run, scs):
 
 # ------------------------------------------------------------------ slice names (clause 2)
 
+def load_collisions():
+    """Corpus of real 32-bit collisions of the slice-name hash between contents with the same object identities."""
+    try:
+        return [tuple(p) for p in json.load(open(os.path.join(vlib.VERIF, "checks", "c14_collisions.json")))["pairs"]]
+    except (OSError, ValueError, KeyError):
+        return []
+
+
+def validate_collisions(run):
+    """Re-validates the corpus against the real hash of the tree under test: a changed hash function is noticed."""
+    pairs = load_collisions()
+    if not pairs:
+        run.notes.append("collision corpus checks/c14_collisions.json missing or empty: forced clashes come from pre-placed slices only")
+        return
+    outs = vlib.run_harness("slicenames", [{"cluster": False, "contents": [a, b], "maxcc": 0, "pre": [], "chunks": []} for a, b in pairs])
+    good = 0
+    for (a, b), o in zip(pairs, outs):
+        names = {c: n for c, _, n in o.get("obs", {}).get("names", [])}
+        if names.get(a) is not None and names.get(a) == names.get(b):
+            good += 1
+        else:
+            vlib.log("C14: corpus pair %s no longer collides under the real slice-name hash" % ((a, b),))
+    run.notes.append("collision corpus: %d of %d pairs collide under the real utils.ComputeFNV32Hash of this tree%s" % (
+        good, len(pairs), "" if good == len(pairs) else " (hash function changed? regenerate with harness mode slicecollide; "
+        "the pre-placed-slice scenarios still force every clash)"))
+
+
 def gen_names(seed, tier):
+    """Contents are numbers; numbers equal modulo 3 list the same object identities with different manifests."""
     r = vlib.rng(seed, "C14/names")
     out = []
 
-    def mk(contents, pre, chunks, cluster=False):
+    def mk(pre, chunks, cluster=False, extra=()):
+        contents = sorted({c for c in chunks} | {a[0] for a, _, _ in pre} | {c for _, c, _ in pre} | set(extra))
         return {"cluster": cluster, "contents": contents, "maxcc": len(pre) + 2,
                 "pre": [{"at": list(a), "content": c, "ctrl": k} for a, c, k in pre], "chunks": chunks}
-    # exhaustive small scope: one chunk, every kind of holder of its first name, every kind of holder of its second name
-    holders = [None] + [(c, k) for c in (0, 1) for k in (0, 1, 2, 3)]
+    # exhaustive small scope: one chunk (content 0); every kind of holder of its first and of its second name:
+    # equal content (0), other objects (1), the same objects with other manifests (3) x controller kind
+    holders = [None] + [(c, k) for c in (0, 1, 3) for k in (0, 1, 2, 3)]
     for h0 in holders:
         for h1 in holders:
             pre = []
@@ -99,19 +133,25 @@ def gen_names(seed, tier):
                 pre.append(((0, 0), h0[0], h0[1]))
             if h1:
                 pre.append(((0, 1), h1[0], h1[1]))
-            out.append(mk(2, pre, [0]))
-    out.append(mk(3, [], [0, 1, 0, 2, 1]))                 # equal chunks share a slice
-    out.append(mk(2, [((0, 0), 1, 1)], [0, 0], True))      # cluster scope
+            out.append(mk(pre, [0]))
+    out.append(mk([], [0, 1, 0, 2, 1]))                    # equal chunks share a slice
+    out.append(mk([((0, 0), 1, 1)], [0, 0], True))         # cluster scope
+    out.append(mk([((4, 0), 7, 1), ((4, 1), 1, 1)], [4, 7]))  # same identities, other manifests, controlled: must not be reused
+    # real hash collisions: the slice of the old revision is still there when the update arrives
+    for a, b in load_collisions():
+        out.append(mk([((a, 0), a, 1)], [b]))
+        out.append(mk([((b, 0), b, 1)], [a, b]))
     n = 200 if tier == "quick" else 6000
     for _ in range(n):
-        k = r.choice([2, 3, 3, 4, 5])
+        k = r.choice([3, 4, 6, 7, 9])
         chunks = [r.randrange(k) for _ in range(r.choice([1, 2, 2, 3, 4, 5]))]
         pre = []
         for _ in range(r.choice([0, 1, 2, 2, 3, 4, 6])):
             at = (r.choice(chunks) if r.random() < 0.85 else r.randrange(k), r.choice([0, 0, 0, 1, 1, 2, 3]))
-            same = r.random() < 0.45
-            pre.append((at, at[0] if same else r.randrange(k), r.choice([0, 1, 1, 1, 2, 3])))
-        out.append(mk(k, pre, chunks, r.random() < 0.2))
+            x = r.random()
+            held = at[0] if x < 0.4 else (at[0] + 3 * r.choice([1, 2])) if x < 0.7 else r.randrange(k)
+            pre.append((at, held, r.choice([0, 1, 1, 1, 1, 2, 3])))
+        out.append(mk(pre, chunks, r.random() < 0.2))
     return out
 
 
@@ -177,20 +217,33 @@ def gen_gc(seed, tier):
     r = vlib.rng(seed, "C14/gc")
     out = [
         # update drops a slice that the previous revision's ObjectSet still references; then that ObjectSet goes away
-        {"cluster": False, "contents": 4, "steps": [
+        {"cluster": False, "steps": [
             {"op": "deploy", "phases": [[0, 1], []]}, {"op": "newset", "name": 1, "listed": 0},
             {"op": "deploy", "phases": [[0, 2], [3]]}, {"op": "newset", "name": 2, "listed": 0},
             {"op": "deploy", "phases": [[2], []]}, {"op": "delset", "name": 1}, {"op": "deploy", "phases": [[2], []]},
             {"op": "delset", "name": 2}, {"op": "deploy", "phases": [[], []]}]},
         # ObjectSets outside the selector / namespace do not protect; labelled strangers are collected
-        {"cluster": False, "contents": 4, "steps": [
+        {"cluster": False, "steps": [
             {"op": "deploy", "phases": [[0, 1]]}, {"op": "newset", "name": 1, "listed": 1}, {"op": "newset", "name": 2, "listed": 2},
             {"op": "slice", "at": [3, 0], "label": 0, "ctrl": 2}, {"op": "slice", "at": [3, 1], "label": 1, "ctrl": 1},
             {"op": "slice", "at": [3, 2], "label": 2, "ctrl": 1}, {"op": "deploy", "phases": [[2]]}]},
-        {"cluster": True, "contents": 3, "steps": [
+        {"cluster": True, "steps": [
             {"op": "deploy", "phases": [[0, 1]]}, {"op": "newset", "name": 1, "listed": 0}, {"op": "deploy", "phases": [[2]]},
             {"op": "delset", "name": 1}, {"op": "deploy", "phases": [[2]]}]},
+        # an update that keeps the objects and changes their manifests (0 -> 3) while a slice with the old manifests,
+        # controlled by the deployment, sits under the name of the new content: the state a hash collision produces
+        {"cluster": False, "steps": [
+            {"op": "deploy", "phases": [[0, 1]]}, {"op": "newset", "name": 1, "listed": 0},
+            {"op": "slice", "at": [3, 0], "label": 0, "ctrl": 1, "holds": 0}, {"op": "deploy", "phases": [[3, 1]]},
+            {"op": "newset", "name": 2, "listed": 0}, {"op": "deploy", "phases": [[3, 1]]}]},
     ]
+    # the same with real collisions of the slice-name hash: revision 1 ships a, the update ships b (same objects,
+    # other manifests, same 32-bit hash) while the slice of a still exists (its ObjectSet is still there)
+    for a, b in load_collisions():
+        out.append({"cluster": False, "steps": [
+            {"op": "deploy", "phases": [[a, 1]]}, {"op": "newset", "name": 1, "listed": 0},
+            {"op": "deploy", "phases": [[b, 1]]}, {"op": "newset", "name": 2, "listed": 0},
+            {"op": "delset", "name": 1}, {"op": "deploy", "phases": [[b, 1]]}, {"op": "deploy", "phases": [[a], [b]]}]})
     n = 120 if tier == "quick" else 4000
     for _ in range(n):
         k = r.choice([3, 4, 5, 6])
@@ -208,13 +261,16 @@ def gen_gc(seed, tier):
                 nset += 1
             elif x < 0.45 and sets:
                 steps.append({"op": "delset", "name": sets.pop(r.randrange(len(sets)))})
-            elif x < 0.55:
-                steps.append({"op": "slice", "at": [r.randrange(k), r.choice([0, 0, 1, 2])], "label": r.choice([0, 0, 1, 2]),
-                              "ctrl": r.choice([0, 1, 2])})
+            elif x < 0.6:
+                c = r.randrange(k)
+                st = {"op": "slice", "at": [c, r.choice([0, 0, 1, 2])], "label": r.choice([0, 0, 1, 2]), "ctrl": r.choice([0, 1, 1, 2])}
+                if r.random() < 0.6:
+                    st["holds"] = r.choice([c + 3, c + 6, r.randrange(k)])      # mostly: same objects, other manifests
+                steps.append(st)
             else:
                 steps.append(deploy())
         steps.append(deploy())
-        out.append({"cluster": r.random() < 0.2, "contents": k, "steps": steps})
+        out.append({"cluster": r.random() < 0.2, "steps": steps})
     return out
 
 
@@ -235,7 +291,11 @@ def gc_terms(obs_steps):
         if o.get("err") or bad:
             raise pl.Unrepresentable("Reconcile failed: %s %s" % (o.get("err"), bad[:1]))
         deleted = cL([cN(nn(q["name"])) for q in o["requests"] if q["verb"] == "delete"])
-        out.append("(Build_gcase %s %s %s %s)" % (tmpl, sets, slices, deleted))
+
+        def cc(l):
+            return cL([cL([cN(c if c >= 0 else 999999990 - c) for c in ph]) for ph in l])
+        out.append("(Build_gcase %s %s %s %s %s %s)" % (tmpl, sets, slices, deleted, cc([ph for ph in o["want"] if ph]),
+                                                       cc([ph for ph in o["got"] if ph])))
     return out
 
 
@@ -254,7 +314,7 @@ def gc_stage(run, scs):
         for j, t in enumerate(ts):
             terms.append(t)
             idx.append((i, j))
-    res, logs = vlib.judge_cases("C14", SIMPORTS, "gjudge", terms, 2, tag="gc")
+    res, logs = vlib.judge_cases("C14", SIMPORTS, "gjudge", terms, 3, tag="gc")
     for l in logs:
         run.violation("corr:C14/coq-eval", {"correspondence": "coq evaluation failed (slicegc)", "log": l}, False)
     for (i, j), r in zip(idx, res):
@@ -266,7 +326,9 @@ def gc_stage(run, scs):
         if o["before"]:
             run.classes.add(("gc", min(ndel, 3), min(nref, 3), sum(1 for s in o["sets"] if not s["listed"]) > 0,
                              sum(1 for s in o["before"] if not s["labelled"]) > 0))
-        agree, mon = r
+        agree, mon, hmon = r
+        if not hmon:
+            run.violation(ID_LOSSLESS, {"scenario": sc, "step": o["step"], "impl": o}, True)
         if not mon:
             run.violation(ID_GC, {"scenario": sc, "step": o["step"], "impl": o}, True)
         elif not agree:
@@ -331,6 +393,37 @@ def slice_twin(r, sc):
     return {"sliced": sliced, "inline": inline, "missing": missing is not None}
 
 
+def delegate_some(r, sc):
+    """Turns some phases of the target into delegated ones (class "default"), with or without an existing ObjectSetPhase
+    object controlled by the ObjectSet; the phase object is desired with the inlined objects in both twins."""
+    t = sc["target"]
+    ts = [s for s in sc["sets"] if (s["kind"], s["ns"], s["name"]) == (t["kind"], t["ns"], t["name"])][0]
+    if not ts["phases"]:
+        return sc
+    sc = copy.deepcopy(sc)
+    ts = [s for s in sc["sets"] if (s["kind"], s["ns"], s["name"]) == (t["kind"], t["ns"], t["name"])][0]
+    sc["phases"], sc["nss"] = [], ([[t["ns"], r.choice([0, 0, 0, 1])]] if t["ns"] and r.random() < 0.9 else [])
+    for i, ph in enumerate(ts["phases"]):
+        if r.random() >= 0.5:
+            continue
+        ph["class"] = True
+        if r.random() < 0.6:
+            g = r.choice([1, 1, 2])
+            conds = r.choice([[], [[0, 0, 0, g]], [[0, 0, 0, g]], [[0, 1, 1, g]], [[0, 0, 0, max(g - 1, 1)]]])
+            if r.random() < 0.3:
+                conds = conds + [[3, 0, 6, g]]
+            sc["phases"].append(dl.mk_phase_obj(4 if t["kind"] == 2 else 3, t["ns"], dl.join_name(t["name"], ph["name"]), 300 + i, rv=30 + i,
+                                                gen=g, owners=[[t["kind"], t["name"], t["uid"], 1]], fin=r.random() < 0.8,
+                                                deleting=r.random() < 0.1, pkg=ts["pkg"], paused=r.choice([ts["life"] == 1] * 3 + [ts["life"] != 1]),
+                                                revision=ts["revision"], prev=list(ts["prev"]), objects=copy.deepcopy(ph["objects"]),
+                                                conds=conds, ctrlof=[]))
+            if sc["phases"][-1]["deleting"]:
+                sc["phases"][-1]["fin"] = True
+            if r.random() < 0.7:
+                ts["remotes"] = ts["remotes"] + [[sc["phases"][-1]["name"], 300 + i]]
+    return sc
+
+
 WITNESS = {
     "force": False, "next_rv": 50, "next_uid": 60, "target": {"kind": 1, "ns": 1, "name": 10, "uid": 100},
     "store": [pl.mk_obj(1, 1, 1, 7, 8, owners=[[1, 10, 100, 1]], rev=1)],
@@ -370,13 +463,15 @@ def x_term(pair, obs, fixed):
     sc, so, io = pair["sliced"], obs["sliced"], obs["inline"]
     t = sc["target"]
     refs = cL([cP(cN(x["kind"]), cN(x["ns"]), cN(x["name"]), cL([cL([cN(n) for n in ph]) for ph in x["slices"]])) for x in sc["refs"]])
-    return ("(Build_xcase %s %s %s %d %d %s %s %s %d %d %d %d %s %s %s %s %d %d %s %d %s %s %s %s %d %d)" % (
+    return ("(Build_xcase %s %s %s %d %d %s %s %s %s %s %d %d %d %d %s %s %s %s %s %d %d %s %d %s %s %s %s %s %d %d)" % (
         cB(fixed), cB(sc["force"]), pl.c_store(sc["store"]), sc["next_rv"], sc["next_uid"], cL([sl.c_set(s) for s in sc["sets"]]),
+        cL([sl.c_osphase(p) for p in sc.get("phases", [])]), sl.c_nss(sc.get("nss", [])),
         refs, cL([c_slice(s) for s in sc["slices"]]), sc["next_srv"], t["kind"], t["ns"], t["name"],
         sl.RES[so["res"]], cL([c_xev(e) for e in so["events"]]), pl.c_store(so["post"]), cL([sl.c_set(s) for s in so["sets"]]),
+        cL([sl.c_osphase(p) for p in so["phases"]]),
         so["next_rv"], so["next_uid"], cL([c_slice(s) for s in so["slices"]]), so["next_srv"],
         sl.RES[io["res"]], cL([sl.c_sev(e["set"]) for e in io["events"]]), pl.c_store(io["post"]),
-        cL([sl.c_set(s) for s in io["sets"]]), io["next_rv"], io["next_uid"]))
+        cL([sl.c_set(s) for s in io["sets"]]), cL([sl.c_osphase(p) for p in io["phases"]]), io["next_rv"], io["next_uid"]))
 
 
 def detect_fixed(run):
@@ -443,6 +538,8 @@ def gen_pairs(seed, tier):
     for mode in ("active", "paused", "new", "deleting", "archived", "archived-done"):
         for _ in range(12 if tier == "quick" else 60):
             base.append(setgen.gen_scenario(rr, mode))
+    # a fifth of the scenarios with delegated phases (mixed phase lists)
+    base = [delegate_some(r, sc) if r.random() < 0.2 else sc for sc in base]
     return [witness_pair(), witness_pair(True)] + [slice_twin(r, sc) for sc in base]
 
 
@@ -471,6 +568,7 @@ def check(run, tier, seed, replay=None):
         return
     run.notes.append("sliced ObjectSet pass compared with Slices.%s (decided by the witness of sliced_teardown_refuted)" %
                      ("sliced_pass_fixed" if fixed else "sliced_pass"))
+    validate_collisions(run)
     if replay:
         sc = json.load(open(replay))["replay"]["scenario"]
         if "sizes" in sc:
